@@ -183,6 +183,8 @@ func c17Values(c *mon.Ctx, r *mon.Rand) {
 				v := r.FiniteFloat()
 				if r.Chance(1, 8) {
 					v = math.Inf(1 - 2*r.Intn(2))
+				} else if r.Chance(1, 12) {
+					v = math.NaN() // not a number is a value like any other: it is what the gauge then shows
 				}
 				m := get("gauge", s, "g"+id)
 				m.Last, m.Updated = v, true
@@ -357,7 +359,7 @@ func c17Values(c *mon.Ctx, r *mon.Rand) {
 					bad(fmt.Sprintf("counter value %v, sum of increments %v", m.GetCounter().GetValue(), s.Sum))
 				}
 			case "gauge":
-				if m.GetGauge() == nil || m.GetGauge().GetValue() != s.Last {
+				if m.GetGauge() == nil || m.GetGauge().GetValue() != s.Last && !(math.IsNaN(m.GetGauge().GetValue()) && math.IsNaN(s.Last)) {
 					bad(fmt.Sprintf("gauge value %v, last update %v", m.GetGauge().GetValue(), s.Last))
 				}
 			case "timer":
